@@ -1,0 +1,44 @@
+//go:build verif
+
+// Contracts for the deductive verifier under /verif (comment-only file).
+package vars
+
+// The encoder's explicit value stack: Push fails exactly when MaxStack states
+// are in use (this is what turns cyclic data into ERR_too_deep instead of a
+// crash: C04, C07), and never writes outside sb.
+//@ pure func stackWF(s *Stack) bool = s != nil && 0 <= s.sp && s.sp <= _MaxStackSP && s.sp % uintptr(StateSize) == 0
+
+//@ datainv stack_consts props C04,C07: _MaxStackSP == MaxStack * StateSize && StateSize == 32 && MaxStack == 4096 && StackLimit == MaxStack * StateSize
+
+//@ func (*Stack).Push props C04,C07
+//@   requires stackWF(s)
+//@   modifies s.sp, s.sb
+//@   ensures result <==> old(s.sp) < _MaxStackSP
+//@   ensures result ==> s.sp == old(s.sp) + uintptr(StateSize) && same(s.sb[old(s.sp) / uintptr(StateSize)], v)
+//@   ensures result ==> (forall k int :: 0 <= k && k < MaxStack && k != old(s.sp) / uintptr(StateSize) ==> same(s.sb[k], old(s.sb[k])))
+//@   ensures !result ==> s.sp == old(s.sp) && same(s.sb, old(s.sb))
+//@   ensures stackWF(s)
+
+//@ func (*Stack).Pop props C04,C07
+//@   requires stackWF(s) && s.sp >= uintptr(StateSize)
+//@   modifies s.sp, s.sb
+//@   ensures s.sp == old(s.sp) - uintptr(StateSize)
+//@   ensures same(result, old(s.sb[(s.sp - uintptr(StateSize)) / uintptr(StateSize)]))
+//@   ensures stackWF(s)
+
+//@ func (*Stack).Save props C04,C07
+//@   requires stackWF(s)
+//@   modifies s.sp, s.sb
+//@   ensures result <==> old(s.sp) < _MaxStackSP
+//@   ensures result ==> s.sp == old(s.sp) + uintptr(StateSize)
+//@   ensures !result ==> s.sp == old(s.sp)
+//@   ensures stackWF(s)
+
+//@ func (*Stack).Drop props C04,C07
+//@   requires stackWF(s) && s.sp >= uintptr(StateSize)
+//@   modifies s.sp, s.sb
+//@   ensures s.sp == old(s.sp) - uintptr(StateSize)
+//@   ensures stackWF(s)
+
+//@ func (*Stack).Load props C04,C07
+//@   requires stackWF(s) && s.sp >= uintptr(StateSize)
